@@ -2,6 +2,12 @@
 """writes MANIFEST.json from the table below (keeps it valid and in one place)"""
 import json, os
 CHECKS = {
+ 'C16': dict(technique='cursor/remaining-length availability analysis of look-ahead reads (R-LEN-READ), constant evaluation of the character-class predicates over all 256 bytes (R-URI-CLASS), NULL-check typestate (R-ALLOC-NULL)',
+             text='Decides that the URI scanners never read behind the length-delimited input (every cursor[k] read is covered by a proven lower bound of the '
+                  'remaining length, decode_segment only after a tested check_segment), that the unescaped sets used by the path/query reconstruction exclude the '
+                  'separator and the escape character (necessary for injectivity of the lookup key), and that optlist allocations are checked. Agreement with '
+                  'RFC 3986 on all strings and dot-segment resolution are not decided.',
+             design='6 C16'),
  'C05': dict(technique='transfer/advance pairing typestate on progress counters (R-STREAM-ADV), declared-length cap and close must-pass-through rule (R-STREAM-CAP)',
              text='Decides for the TCP and WebSocket stream readers that every n bytes stored at buffer+counter are accounted by advancing that counter by the same '
                   'n (or a reset) on every path, that peer-declared lengths are compared with a maximum before they size an allocation/copy/read with the '
